@@ -309,7 +309,10 @@ namespace link_layer {
     template < class BufferedRadio, class ReceiveCallbacks, std::size_t MTUSize >
     void ll_l2cap_sdu_buffer< BufferedRadio, ReceiveCallbacks, MTUSize >::free_ll_l2cap_received()
     {
-        if (receive_buffer_used_)
+        // only a completely reassembled SDU is handed out from the receive_buffer_. While a SDU is still
+        // incomplete, next_ll_l2cap_received() hands out PDUs of the radio (e.g. LL control PDUs that
+        // are received in between the fragments)
+        if ( receive_buffer_used_ != 0 && receive_size_ == 0 )
         {
             receive_buffer_used_ = 0;
             receive_size_ = 0;
